@@ -14,6 +14,7 @@ PROPS = {
     "C06": ("c06", "other"),
     "C07": ("c07", "other"),
     "C19": ("c19", "other"),
+    "C08": ("c08", "other"),
     "C12": ("c12_c13", "translation_validation"),
     "C13": ("c12_c13", "translation_validation"),
 }
